@@ -118,21 +118,34 @@ def run(ctx):
             for _ in range(5 if ctx.quick else 40):
                 writes = [(bytes(rng.choice([10, 97]) for _ in range(rng.randint(0, 5))) if rng.random() < 0.5 else
                            "".join(rng.choice("ab\n") for _ in range(rng.randint(0, 5)))) for _ in range(rng.randint(0, 5))]
-                ch = gw.remote_exec("n = channel.receive()\nchannel.send([channel.receive() for _ in range(n)])\nchannel.receive()")
+                ch = gw.remote_exec("n = channel.receive()\nchannel.send([channel.receive(2) for _ in range(n)])\nchannel.receive()")
                 f = ch.makefile("w", proxyclose=proxyclose)
                 ch.send(len(writes))
-                for w in writes:
-                    f.write(w)
-                    f.flush()
-                got = ch.receive(20)
-                f.close()
-                closed_after = ch.isclosed()
-                ch.close()
+                got, closed_after, after = [], False, "?"
                 try:
-                    f.write("x")
-                    after = "ok"
-                except OSError:
-                    after = "OSError"
+                    for w in writes:
+                        f.write(w)
+                        f.flush()
+                    got = ch.receive(20)
+                except Exception as e:  # noqa: BLE001 - e.g. the remote side timed out waiting for an item that was never sent
+                    got = ["<" + type(e).__name__ + ">"]
+                try:
+                    f.close()
+                    closed_after = ch.isclosed()
+                    ch.close()
+                    try:
+                        f.write("x")
+                        after = "ok"
+                    except OSError:
+                        after = "OSError"
+                    except Exception as e:  # noqa: BLE001
+                        after = type(e).__name__
+                    if after == "OSError":   # also an empty write must be refused on a closed channel
+                        try:
+                            f.write("")
+                            after = "empty-write-accepted"
+                        except OSError:
+                            pass
                 except Exception as e:  # noqa: BLE001
                     after = type(e).__name__
                 enc = lambda it: [ord(c) for c in it] if isinstance(it, str) else list(it)  # noqa: E731
